@@ -1,5 +1,5 @@
 """Registry: unit id -> (builder, properties served); property id -> info for the evidence file."""
-from . import u11_split_fields, u10_literal_escape, u02_cf_builtins, u03_errexit, u01_results, u05_arith_eval, u06_arith_literal, u20_spans, u04a_while, u04e_andor, u04d_if, u04c_arithfor, u04g_list, u04h_program, u04f_case, u04b_for, u04i_fntail, u04j_subshell, u04k_pipeline, u15_fd_table, u16_quoting
+from . import u13_env, u11_split_fields, u10_literal_escape, u02_cf_builtins, u03_errexit, u01_results, u05_arith_eval, u06_arith_literal, u20_spans, u04a_while, u04e_andor, u04d_if, u04c_arithfor, u04g_list, u04h_program, u04f_case, u04b_for, u04i_fntail, u04j_subshell, u04k_pipeline, u15_fd_table, u16_quoting
 
 UNITS = {
     'U1': (u01_results.build, u01_results.PROPS),
@@ -20,6 +20,7 @@ UNITS = {
     'U6': (u06_arith_literal.build, u06_arith_literal.PROPS),
     'U10': (u10_literal_escape.build, u10_literal_escape.PROPS),
     'U11': (u11_split_fields.build, u11_split_fields.PROPS),
+    'U13': (u13_env.build, u13_env.PROPS),
     'U15': (u15_fd_table.build, u15_fd_table.PROPS),
     'U16': (u16_quoting.build, u16_quoting.PROPS),
     'U20': (u20_spans.build, u20_spans.PROPS),
@@ -33,6 +34,7 @@ PROPERTIES = {
     'C05': {'level': 'proof'},
     'C07': {'level': 'proof'},
     'C08': {'level': 'proof'},
+    'C09': {'level': 'proof'},
     'C10': {'level': 'proof'},
     'C13': {'level': 'proof'},
     'C18': {'level': 'proof'},
